@@ -145,6 +145,14 @@ pub enum WOp
     Syscall(SysKind, u8, u32),
     SpawnSys(u8, u8),
     KillSys(u8),
+    /// `IdMappedSystems::revoke_sysname` of the named system (name, function key)
+    RevokeNamed(u8, u8),
+    /// `spawn_rc_system` into spawned-system slot k (the signal is kept by the harness)
+    SpawnSysRc(u8, u8),
+    /// drop the signal of a ref-counted spawned system
+    DropSysRc(u8),
+    /// `Commands::insert_system(slot entity, callee)` into spawned-system slot k
+    InsertSys(u8, Slot, u8),
 }
 
 /// Entry points of the syscall family.
@@ -157,6 +165,8 @@ pub enum SysKind
     Validated,
     /// `world.syscall_once`
     Once,
+    /// `world.syscall_once_with_validation`
+    OnceValidated,
     /// `named_syscall(world, name, input, callee::<K>)`, name in the second field's high nibble
     Named(u8),
     /// `named_syscall_direct` (errors if not registered)
